@@ -78,6 +78,7 @@ theorem step_plain (U : Universe) (f : Nat → List V → V) (lrk : Nat → Nat)
   | force i del => exact absurd hp (by simp [Plain])
   | chainForce n S d r o => exact absurd hp (by simp [Plain])
   | chainForceF n S d o fl => exact absurd hp (by simp [Plain])
+  | reset i => exact absurd hp (by simp [Plain])
 
 /-- **C04, history level.** Over ANY sequence of value requests (on arbitrary objects of arbitrarily many chains, in any
 order) and inspections on one data directory, starting from an empty store, no storage location of a persisting task is
